@@ -21,7 +21,7 @@ MAP = {
     "bc90715": ["C01"], "368cd54": ["C01"], "841b4c9": ["C01"], "19b40d9": ["C01"], "6c4348a": ["C01"], "3e78aff": ["C01"], "fe776ff": ["C01"], "c153b33": ["C01"],
     "ba9eebb": ["C01"], "8fc29b4": ["C01"], "97c04b0": ["C01"], "da3f595": ["C01"], "4dc41aa": ["C01"], "a4aea6f": ["C01"], "fa1a2c0": ["C01"], "0b8dfcb": ["C01"],
     "35321df": ["C01"], "19122ff": ["C01", "C06"], "d13fb98": ["C01"], "0d7c423": ["C01"], "6c4582f": ["C01"], "acd91f6": ["C01"], "390a3e4": ["C01"], "4b78a8c": ["C01"],
-    "def6c5a": ["C01"], "5f0676f": ["C01"], "3399837": ["C01"], "c52255e": ["C01"], "cfa8294": ["C01"], "e4a46f9": ["C19"], "f0c2944": ["C08"], "66e5642": ["C12", "C09"], "5036a81": ["C17", "C16"], "6433c02": ["C11"], "0652298": ["C11"], "caf0eaf": ["C06"], "102a6c1": ["C04"], "b6cedec": ["C09"], "d9f1246": ["C08"], "9f74568": ["C08"], "f337d5e": ["C02"], "fbe9057": ["C01", "C19"], "f5059bf": ["C01"], "172e06a": ["C01"], "9f3bac1": ["C01"], "b6ca162": ["C01"], "0035216": ["C01"], "45bc911": ["C01"], "db27c0c": ["C01"], "4b77a23": ["C01"], "ef25914": ["C01"], "0e23250": ["C01"], "6d41e56": ["C01"], "23a51f6": ["C01"], "58c657a": ["C01"], "90631ee": ["C01"], "b5f3288": ["C01"], "892bffe": ["C01"], "67e2ea1": ["C01"], "726cd74": ["C01"], "087251d": ["C01"], "a795f70": ["C01"], "2a19896": ["C01"], "675bb4a": ["C01"], "8e34685": ["C01"], "9483128": ["C01"], "246d333": ["C01"], "0c8a429": ["C01"], "717b6fc": ["C01"], "7840183": ["C01"], "c30e84f": ["C01"], "e65cdd4": ["C01"], "184dc2a": ["C01"], "552bd2e": ["C01"], "e6906e2": ["C01"], "d41d4dd": ["C01"], "47a205a": ["C01"], "acf165a": ["C01"], "8d3f1b9": ["C01"], "c45be90": ["C01"], "fabd99c": ["C01"], "dfc6ce6": ["C01"], "691d278": ["C01"], "4a6ee0f": ["C01"], "f8d0c2c": ["C01"],   
+    "def6c5a": ["C01"], "5f0676f": ["C01"], "3399837": ["C01"], "c52255e": ["C01"], "cfa8294": ["C01"], "e4a46f9": ["C19"], "f0c2944": ["C08"], "66e5642": ["C12", "C09"], "5036a81": ["C17", "C16"], "6433c02": ["C11"], "0652298": ["C11"], "caf0eaf": ["C06"], "102a6c1": ["C04"], "b6cedec": ["C09"], "d9f1246": ["C08"], "9f74568": ["C08"], "f337d5e": ["C02"], "fbe9057": ["C01", "C19"], "f5059bf": ["C01"], "172e06a": ["C01"], "9f3bac1": ["C01"], "b6ca162": ["C01"], "0035216": ["C01"], "45bc911": ["C01"], "db27c0c": ["C01"], "4b77a23": ["C01"], "ef25914": ["C01"], "0e23250": ["C01"], "6d41e56": ["C01"], "23a51f6": ["C01"], "58c657a": ["C01"], "90631ee": ["C01"], "b5f3288": ["C01"], "892bffe": ["C01"], "67e2ea1": ["C01"], "726cd74": ["C01"], "087251d": ["C01"], "a795f70": ["C01"], "2a19896": ["C01"], "675bb4a": ["C01"], "8e34685": ["C01"], "9483128": ["C01"], "246d333": ["C01"], "0c8a429": ["C01"], "717b6fc": ["C01"], "7840183": ["C01"], "c30e84f": ["C01"], "e65cdd4": ["C01"], "184dc2a": ["C01"], "552bd2e": ["C01"], "e6906e2": ["C01"], "d41d4dd": ["C01"], "47a205a": ["C01"], "acf165a": ["C01"], "8d3f1b9": ["C01"], "c45be90": ["C01"], "fabd99c": ["C01"], "dfc6ce6": ["C01"], "691d278": ["C01"], "4a6ee0f": ["C01"], "f8d0c2c": ["C01"], "458e847": ["C01"], "01a9551": ["C01"],    
 }
 log = subprocess.run(["git", "-C", "/repo", "log", "--reverse", "--format=%h\t%s"], capture_output=True, text=True, check=True).stdout.splitlines()
 per = {}
